@@ -583,6 +583,21 @@ func genCase(t *rapid.T) readerCase {
 				continue
 			}
 			st := step{Op: "setoffset", Offset: o.Start + int64(rapid.IntRange(0, int(end-o.Start)).Draw(t, "setOff"))}
+			if rapid.IntRange(0, 3).Draw(t, "beyondEnd") == 0 {
+				// a position the log has not reached yet: nothing is delivered until the log grows past it, and then the
+				// first message is the first record at or above it (never an earlier one)
+				st.Offset = end + int64(rapid.IntRange(1, 3).Draw(t, "beyondBy"))
+				c.Steps = append(c.Steps, st)
+				o2 := o
+				o2.Start, o2.MaxRecords, o2.MinMagic = end, 12, 0
+				if len(c.Initial.Batches) > 0 {
+					o2.MinMagic = lastMagic(c, stored)
+				}
+				l := logsim.Gen(t, o2)
+				end = l.End
+				c.Steps = append(c.Steps, step{Op: "append", Layout: &l}, step{Op: "fetch", N: rapid.IntRange(1, 6).Draw(t, "beyondFetch")})
+				continue
+			}
 			if rapid.Bool().Draw(t, "duringFetch") {
 				st.Op, st.N = "setoffset-race", rapid.SampledFrom([]int{0, 50, 300, 2000}).Draw(t, "raceUs")
 			}
